@@ -279,16 +279,17 @@ fn msp_event<P: Kmer>(sink: &Sink, r: &mut Rng) {
     }
     let maxpiece = 2 * k - p;
     let mut vts = vec!["DnaBytes", "DnaString"];
-    if maxpiece <= 28 {
+    // a container is eligible when the library itself says it is large enough (msp_sequence asserts exactly this)
+    if maxpiece <= <Lmer1 as Vmer>::max_len() {
         vts.push("Lmer1");
     }
-    if maxpiece <= 60 {
+    if maxpiece <= <Lmer2 as Vmer>::max_len() {
         vts.push("Lmer2");
     }
-    if maxpiece <= 92 {
+    if maxpiece <= <Lmer3 as Vmer>::max_len() {
         vts.push("Lmer3");
     }
-    if maxpiece <= 124 {
+    if maxpiece <= <Lmer<[u64; 4]> as Vmer>::max_len() {
         vts.push("Lmer4");
     }
     let vt = *r.pick(&vts);
